@@ -41,6 +41,8 @@ def child_main(argv: list[str]) -> int:
     t0 = time.time()
     rec.cls("interpreter:" + shard.get("config", "default"))
     rec.cls("package_loggers_enabled_for:" + os.environ.get("VMON_LOGLEVEL", "DEBUG"))
+    if os.environ.get("VMON_QUIET_START"):
+        rec.cls("process_started_with_a_quiet_bulk_parse")
     if os.environ.get("VMON_AMBIENT") == "decimal":
         import decimal
 
@@ -306,6 +308,8 @@ def main(argv: list[str]) -> int:
     for k, sh in enumerate(shards):  # log level as a workload dimension (env.import_chartparse)
         e = dict(sh.get("env") or {})
         e.setdefault("VMON_LOGLEVEL", "WARNING" if (k + seed) % 2 else "DEBUG")
+        if (k + seed) % 4 == 1:  # every fourth process begins with a quiet bulk import (harness.quiet_start)
+            e.setdefault("VMON_QUIET_START", "1")
         sh["env"] = e
     shards = shards + config_variants(pid, shards, seed, tier)
     watchdog = getattr(prop, "WATCHDOG", {"quick": 900, "thorough": 5400})[tier]
